@@ -14,6 +14,10 @@ import traceback
 RAISED = object()  # sentinel returned by Out.call when the wrapped call raised
 
 
+class CallTimeout(BaseException):
+    """raised by the SIGALRM handler inside Out.call (BaseException: library code must not swallow it)"""
+
+
 # ----------------------------------------------------------------------------------------------
 # JSON with tuples (node names / state names may be tuples)
 # ----------------------------------------------------------------------------------------------
@@ -102,9 +106,30 @@ class Out:
         self.classes.extend(names)
 
     def call(self, label, fn, *a, **k):
-        """Run a pgmpy call that the property says must succeed; a raise becomes a failure record."""
+        """Run a pgmpy call that the property says must succeed; a raise becomes a failure record.
+        A call that is still running after CALL_TIMEOUT seconds (default 120; these calls take milliseconds)
+        is interrupted and recorded under '<label>:no_result_within_timeout' -- a hang, not a slow machine."""
+        import signal
+
+        limit = int(k.pop("_timeout", None) or os.environ.get("VF_CALL_TIMEOUT", "120"))
+        use_alarm = hasattr(signal, "SIGALRM") and limit > 0
+
+        def _handler(signum, frame):
+            raise CallTimeout()
+
         try:
-            return fn(*a, **k)
+            if use_alarm:
+                old = signal.signal(signal.SIGALRM, _handler)
+                signal.alarm(limit)
+            try:
+                return fn(*a, **k)
+            finally:
+                if use_alarm:
+                    signal.alarm(0)
+                    signal.signal(signal.SIGALRM, old)
+        except CallTimeout:
+            self.fail(f"{label}:no_result_within_timeout", f"still running after {limit} s")
+            return RAISED
         except Exception as e:  # noqa: BLE001 - every exception from the code under test is recorded
             frame = _innermost_repo_frame(e.__traceback__)
             if frame is None:
